@@ -93,6 +93,9 @@ type acase struct {
 	W     int64  `json:"w"`  // window (ns)
 	T0    int64  `json:"t0"` // initial clock
 	Steps []step `json:"steps"`
+	// OutCap: capacity of the aggregator's output channel in this case (0: large). With 1-3 the reporter
+	// worker is blocked in its sends until the harness reads - back-pressure from a slow stats reporter.
+	OutCap int `json:"out_cap,omitempty"`
 }
 
 // ---- what a run of the real code yields ----
@@ -235,9 +238,35 @@ func (d *drv) drain() []ostat {
 	return o
 }
 
+// lockDraining takes the aggregator's mutex while the output keeps being read: the reporter sends its
+// reports with the mutex held, and with a small output channel (out_cap) it is blocked in such a send until
+// somebody reads.
+func (d *drv) lockDraining() {
+	for !d.mu.TryLock() {
+		select {
+		case st, ok := <-d.out:
+			if !ok {
+				d.closed = true
+			} else {
+				d.take(st)
+			}
+		case <-time.After(time.Millisecond):
+		}
+	}
+}
+
+// takeOne handles one receive from the output channel inside a wait loop.
+func (d *drv) takeOne(st stats.Stat, ok bool) {
+	if !ok {
+		d.closed = true
+		return
+	}
+	d.take(st)
+}
+
 // scan moves the reporter clock to clk and waits for one complete scan at that reading.
 func (d *drv) scan(clk int64) ([]ostat, string) {
-	d.mu.Lock()
+	d.lockDraining()
 	nb := 0
 	seen := map[int64]bool{}
 	for _, a := range d.agg.VerifOpenBucketsLocked() {
@@ -254,12 +283,14 @@ func (d *drv) scan(clk int64) ([]ostat, string) {
 		for d.repCalls.Load() < c0+int64(nb) {
 			select {
 			case <-d.repNote:
+			case st, ok := <-d.out:
+				d.takeOne(st, ok)
 			case <-time.After(5 * time.Millisecond):
 			case <-to:
 				return nil, "timeout waiting for the reporter"
 			}
 		}
-		d.mu.Lock() // the reporter's locked section (sends, deletes) is over
+		d.lockDraining() // the reporter's locked section (sends, deletes) is over
 		d.mu.Unlock()
 	}
 	return d.drain(), ""
@@ -268,7 +299,7 @@ func (d *drv) scan(clk int64) ([]ostat, string) {
 // scanTick lets one scan run whose k-th clock call reads t0 + k*step, then an ordinary scan at the
 // last reading R handed out; returns the stats of both and R.
 func (d *drv) scanTick(t0, step int64) ([]ostat, int64, int64, string) {
-	d.mu.Lock()
+	d.lockDraining()
 	nb := 0
 	seen := map[int64]bool{}
 	for _, a := range d.agg.VerifOpenBucketsLocked() {
@@ -288,13 +319,15 @@ func (d *drv) scanTick(t0, step int64) ([]ostat, int64, int64, string) {
 		for d.repCalls.Load() < c0+int64(nb) {
 			select {
 			case <-d.repNote:
+			case st, ok := <-d.out:
+				d.takeOne(st, ok)
 			case <-time.After(5 * time.Millisecond):
 			case <-to:
 				return nil, 0, 0, "timeout waiting for the reporter"
 			}
 		}
 	}
-	d.mu.Lock() // the ticking scan's locked section is over (or none ran: no open bucket)
+	d.lockDraining() // the ticking scan's locked section is over (or none ran: no open bucket)
 	calls := d.tickN.Load()
 	r := t0 + calls*step
 	d.tick.Store(false)
@@ -323,7 +356,11 @@ func runImpl(c acase) (res result) {
 		}
 	}
 	d.in = make(chan stats.Stat, nst+1)
-	d.out = make(chan stats.Stat, 8192)
+	outCap := 8192
+	if c.OutCap > 0 {
+		outCap = c.OutCap // a slow reporter behind the aggregator: sends block until the harness reads
+	}
+	d.out = make(chan stats.Stat, outCap)
 	for _, st := range c.Steps {
 		if st.S != nil && (st.Op == "F" || st.Op == "R") {
 			d.in <- toStat(*st.S)
@@ -832,6 +869,9 @@ func genCase(rng *rand.Rand) acase {
 			c.Steps = append(c.Steps, step{Op: "F", S: st})
 		}
 		c.Steps = append(c.Steps, step{Op: "A", D: 2*w + grace + 1}, step{Op: "S"})
+		if rng.Intn(3) == 0 {
+			c.OutCap = 1 + rng.Intn(3)
+		}
 		return c
 	}
 	ids := []ident{}
@@ -937,6 +977,9 @@ func genCase(rng *rand.Rand) acase {
 	}
 	if rng.Intn(3) != 0 {
 		c.Steps = append(c.Steps, step{Op: "A", D: genAdvance()}, step{Op: "S"})
+	}
+	if rng.Intn(4) == 0 {
+		c.OutCap = 1 + rng.Intn(3)
 	}
 	return c
 }
